@@ -169,6 +169,7 @@ class Interp:
         self._fresh = itertools.count(1)
         self.static_depth = 0
         self.unsupported = {}
+        self.io_failures = False  # when set: a writer's write() may fail with DeviceWriteError after the line was handed to it
         self.key_poly = {}        # canonical key of a compared polynomial -> the polynomial (for rules that use equalities)
         self.unresolved_calls = {}
         self.resolved_calls = 0
@@ -1610,6 +1611,11 @@ class Interp:
         if r is None:
             r = Unk(self.fresh(f"ret({self.tag(fv)})"), "ext")
         ev.data["result"] = r
+        if self.io_failures and isinstance(fv, Unk) and fv.tag.startswith("elem(g._writers)") and fv.tag.endswith(".write"):
+            k = sum(1 for e in self.trace if e.kind == "EXT" and e is not ev and isinstance(e.data.get("callee"), Unk)
+                    and e.data["callee"].tag.startswith("elem(g._writers)") and e.data["callee"].tag.endswith(".write"))
+            if self.decide(f"io-failure:write#{k}", [False, True]):
+                self.raise_("DeviceWriteError", node, note="a registered writer fails while it is handed the line")
         return r
 
     def bind_args(self, fnode, args, kwargs, fr: Frame, qualname, node):
